@@ -384,7 +384,7 @@ func init() {
 			jb(c, &c01Bytes{Bytes: b, Class: class, Txs: k})
 		}
 		c.Phase("lists")
-		lcounts := []int{0, 1, 2, 5, 252, 253, 254}
+		lcounts := []int{0, 1, 2, 5, 252, 253, 254, 1023, 1024, 1025, 2049, 4100} // incl. counts around powers of two (internal batch / slab sizes)
 		if c.Thorough {
 			lcounts = append(lcounts, 65535, 65536)
 		}
@@ -398,7 +398,7 @@ func init() {
 			}
 			r := c.Rand(uint64(i))
 			cnt := lcounts[i%len(lcounts)]
-			if i >= 4*len(lcounts) && cnt > 254 {
+			if i >= 2*len(lcounts) && cnt > 254 {
 				cnt = r.Intn(6)
 			}
 			opts := smallOpts
